@@ -24,6 +24,11 @@ func (i Instance) Validate() error {
 	if len(i.Values) == 0 {
 		return errorx.Invalid("Instance should have values")
 	}
+	if i.Key != nil {
+		if _, err := NewScale(*i.Key); err != nil {
+			return err
+		}
+	}
 	return nil
 }
 
